@@ -17,6 +17,7 @@ class Rule:
         self.analysis = analysis
         self.instances = []   # dicts: key, verdict, where, detail, nontrivial
         self.analysed = []    # free-form strings: functions / sites looked at
+        self.extra = 0        # evaluations folded into grouped instances
 
     def ok(self, key, detail="", where="", nontrivial=True):
         self.instances.append({"key": key, "verdict": "ok", "where": where, "detail": detail,
@@ -34,7 +35,7 @@ class Rule:
         self.bad("anchor-missing:" + anchor, "anchor not found: %s %s" % (anchor, detail), nontrivial=False)
 
     def count(self):
-        return len([i for i in self.instances if not i["key"].startswith("anchor-missing:")])
+        return self.extra + len([i for i in self.instances if not i["key"].startswith("anchor-missing:")])
 
     def finish(self):
         n = self.count()
